@@ -712,10 +712,10 @@ def catalogue(ndonly=False):
     add('real(fft(x)*x)+imag(x*fft(x))', lambda A, x: A.real(A.fft.fft(x) * x) + A.imag(x * A.fft.fft(x)), shape=(4,), group='fft')
     add('real(fft(x)+x)', lambda A, x: A.real(A.fft.fft(x) + x) * x, shape=(4,), group='fft')
     # ---- compositions --------------------------------------------------------------
-    add('real(inv(x + 1j*c))', lambda A, x: A.real(A.inv(x + 1j * A.c['c'])) * A.c['w'], shape=(2, 2), group='comp', consts={'c': (2, 2), 'w': (2, 2)})
-    add('imag(inv(x + 1j*c))*x', lambda A, x: A.imag(A.inv(x + 1j * A.c['c'])) * x, shape=(2, 2), group='comp', consts={'c': (2, 2)})
-    add('real(solve(x + 1j*c, x.T))', lambda A, x: A.real(A.solve(x + 1j * A.c['c'], x.T)), shape=(2, 2), group='comp', consts={'c': (2, 2)})
-    add('imag(solve(x, x.T + 1j*c))', lambda A, x: A.imag(A.solve(x, x.T + 1j * A.c['c'])), shape=(2, 2), group='comp', consts={'c': (2, 2)})
+    add('real(inv(x + 1j*c))', lambda A, x: A.real(A.inv(x + 1j * A.c['c'])) * A.c['w'], shape=(2, 2), group='comp', tags=['D2only'], consts={'c': (2, 2), 'w': (2, 2)})
+    add('imag(inv(x + 1j*c))*x', lambda A, x: A.imag(A.inv(x + 1j * A.c['c'])) * x, shape=(2, 2), group='comp', tags=['D2only'], consts={'c': (2, 2)})
+    add('real(solve(x + 1j*c, x.T))', lambda A, x: A.real(A.solve(x + 1j * A.c['c'], x.T)), shape=(2, 2), group='comp', tags=['D2only'], consts={'c': (2, 2)})
+    add('imag(solve(x, x.T + 1j*c))', lambda A, x: A.imag(A.solve(x, x.T + 1j * A.c['c'])), shape=(2, 2), group='comp', tags=['D2only'], consts={'c': (2, 2)})
     add('sum(x*exp(x)/(1+x0*x1)+sin(x)*x[::-1])', lambda A, x: A.sum(x * A.exp(x) / (1. + x[0] * x[1]) + A.sin(x) * x[::-1]), group='comp', dom='den01')
     add('exp(dot)', lambda A, x: A.exp(A.dot(x, x)) * x, group='comp')
     add('log(sum sq)', lambda A, x: A.log(A.sum(x * x) + 1.0), group='comp')
